@@ -130,15 +130,28 @@ def _c04(m, tier, seed, rundir, extra):
     wl = os.path.join(rundir, 'widen.json')
     core.run_vh(['widenlist', '--cases', wl], os.path.join(rundir, 'widenlist-out.json'))
     made += c04.make_widen_files(wl, os.path.join(rundir, f'files-{SH}.jsonl'), seed)
+    # ground-truth anchor: the four files written by Roblox Studio, interpreted with the document (refbin) and the database
+    def wiremap_cmd(pairs):
+        import json as _j
+        pin, pout = os.path.join(rundir, 'wiremap-in.json'), os.path.join(rundir, 'wiremap-out.json')
+        _j.dump(pairs, open(pin, 'w'))
+        import subprocess
+        subprocess.run([core.vh(), 'wiremap', '--in', pin, '--out', pout], check=True)
+        return _j.load(open(pout))
+    try:
+        nst, info = c04.studio_cases(os.path.join(rundir, f'files-{SH + 1}.jsonl'), wiremap_cmd)
+        m.extra['studio_written_files'] = info
+    except Exception as e:  # noqa
+        m.inconclusive.append(f'studio anchor files could not be prepared: {e!r}')
     import concurrent.futures as cf
     outs = []
     with cf.ThreadPoolExecutor(max_workers=core.NCPU) as ex:
         futs = [ex.submit(core.run_vh, ['readcmp', '--prop', 'C04', '--in', os.path.join(rundir, f'files-{i}.jsonl')],
-                          os.path.join(rundir, f'readcmp-{i}.json')) for i in range(SH + 1)]
+                          os.path.join(rundir, f'readcmp-{i}.json')) for i in range(SH + 2) if os.path.exists(os.path.join(rundir, f'files-{i}.jsonl'))]
         outs = [f.result() for f in futs]
     m.add_results(outs, 'readcmp')
     m.extra['files_generated_by_reference_encoder'] = made
-    for i in range(SH + 1):
+    for i in range(SH + 2):
         for f in (f'logical-{i}.jsonl', f'files-{i}.jsonl'):
             p = os.path.join(rundir, f)
             if os.path.exists(p):
